@@ -295,3 +295,55 @@ Proof.
   exists [(1%N, 1%Z); (1%N, 2%Z)], [(1%N, 2%Z); (1%N, 1%Z)], (fun _ => 0%Z).
   split; [apply perm_swap|]. intro C. specialize (C (0%N, 1%N)). vm_compute in C. discriminate.
 Qed.
+
+(* ========================================================================================== *)
+(* VMExecutor.generateCode (sub-chain reward call data)                                         *)
+
+(* the defect: the byte string handed to the economy contract depends on the visiting order *)
+Theorem generate_code_refuted :
+  exists (o1 o2 : list (string * N) -> list (string * N)) castor props members,
+    perm_oracle o1 /\ perm_oracle o2 /\ NoDup (map fst props) /\
+    generate_code castor (o1 props) members <> generate_code castor (o2 props) members.
+Proof.
+  exists (fun l => l), (@rev (string * N)), 7%N, [("0x51"%string, 1%N); ("0x52"%string, 2%N)], [9%N].
+  split; [intro; reflexivity|]. split; [intro l; apply Permutation_sym, Permutation_rev|].
+  split.
+  - cbn. repeat constructor; cbn; intuition discriminate.
+  - vm_compute. discriminate.
+Qed.
+
+(* what IS order independent: everything but the address segment, which varies as a permutation *)
+Theorem generate_code_only_segment_varies : forall castor l1 members,
+  exists pre post, forall l2, Permutation l1 l2 ->
+    generate_code castor l2 members = pre ++ map snd l2 ++ post /\ Permutation (map snd l1) (map snd l2).
+Proof.
+  intros castor l1 members.
+  exists [castor; 96%N; (N.of_nat (4 + List.length l1) * 32)%N; N.of_nat (List.length l1)], (N.of_nat (List.length members) :: members).
+  intros l2 P. split; [|now apply Permutation_map].
+  unfold generate_code. now rewrite (Permutation_length P).
+Qed.
+
+(* the repair that would remove the finding: visit the proposals in increasing key order *)
+Definition pair_ltb (a b : string * N) : bool := key_ltb (fst a) (fst b).
+
+Lemma pair_sto : forall l, NoDup (map fst l) -> sto_on pair_ltb l.
+Proof.
+  intros l Nd. constructor; unfold pair_ltb.
+  - intros. apply key_ltb_irrefl.
+  - intros. eapply key_ltb_trans; eassumption.
+  - intros a b Ha Hb. destruct (key_ltb_total (fst a) (fst b)) as [E|[L|G]]; auto.
+    left. eapply NoDup_map_inj; eassumption.
+Qed.
+
+Theorem generate_code_sorted_order_indep : forall o1 o2 castor props members,
+  perm_oracle o1 -> perm_oracle o2 -> NoDup (map fst props) ->
+  generate_code castor (isort pair_ltb (o1 props)) members = generate_code castor (isort pair_ltb (o2 props)) members.
+Proof.
+  intros o1 o2 castor props members P1 P2 Nd.
+  assert (E : forall o, perm_oracle o -> isort pair_ltb (o props) = isort pair_ltb props).
+  { intros o Po. symmetry. apply isort_unique.
+    - now apply pair_sto.
+    - eapply NoDup_of_map; exact Nd.
+    - apply Permutation_sym, Po. }
+  now rewrite (E o1 P1), (E o2 P2).
+Qed.
